@@ -95,6 +95,12 @@ def kinds(t: str) -> set[str]:
         out.add(head)
     return out
 
+# kind of a parameter bound to a caller's value of unchecked type ("wrong types" in a property's quantifier): every
+# operation on it that Python type-checks at run time is a raising site until an isinstance test narrows it
+UNTYPED = "Untyped"
+# builtins that accept any object
+_ANY_OK_BUILTINS = {"isinstance", "str", "repr", "bool", "print", "type", "id", "callable", "hasattr", "getattr", "format", "ascii", "super", "object", "cast", "copy", "deepcopy", "is_dataclass"}
+
 # external callables: dotted call name -> exceptions
 EXTERNAL: dict[str, tuple[str, ...]] = {
     "struct.unpack": ("struct.error",), "struct.unpack_from": ("struct.error",), "struct.pack": ("struct.error",), "struct.calcsize": (),
@@ -263,6 +269,7 @@ class _FuncAnalysis:
         # parameters whose static kinds at this call are known and that are never rebound in the body
         rebound = {t.id for n in walk_local(fi.node) for t in (ast.walk(n) if isinstance(n, (ast.Assign, ast.AugAssign, ast.AnnAssign, ast.For, ast.NamedExpr, ast.With, ast.AsyncWith)) else ()) if isinstance(t, ast.Name) and isinstance(t.ctx, ast.Store)}
         self.argkinds = {k: v for k, v in (argkinds or {}).items() if k not in rebound}
+        self.taint = {k for k, v in (argkinds or {}).items() if UNTYPED in v}
         self.repo = mr.repo
         self.mod = fi.module
         self.cfg, self.mf, self.owner = mr.cfg_facts(fi)
@@ -316,6 +323,63 @@ class _FuncAnalysis:
         t = self.mr.types.type_of(self.mod.name, e)
         return t or ""
 
+    def untyped(self, e: ast.AST | None, local: tuple = ()) -> bool:
+        """`e` is (an attribute / element of) a parameter that carries a caller's value of unchecked type, the
+        parameter's own binding may still reach this use, and no isinstance test that holds here narrows it."""
+        if not self.taint or e is None:
+            return False
+        root = e
+        while isinstance(root, (ast.Attribute, ast.Subscript)):
+            root = root.value
+        if not isinstance(root, ast.Name):
+            return False
+        src = root.id
+        if src not in self.taint:
+            d = self.mr.local_defs(self.fi)[0].get(src)
+            if not (isinstance(d, ast.Name) and d.id in self.taint):
+                return False
+            src = d.id
+        nid = self.owner.get(id(root), self.owner.get(id(e)))
+        if nid is not None:
+            rd = self.cfg.reaching_defs().get(nid, {}).get(src)
+            if rd is not None and -1 not in rd:
+                return False
+        fs = self.facts(e, local)
+        x: ast.AST = e
+        while True:
+            txt = ast.unparse(x)
+            if any(val and atom.startswith(f"isinstance({txt},") for atom, val in fs):
+                return False
+            if isinstance(x, (ast.Attribute, ast.Subscript)):
+                x = x.value
+            else:
+                break
+        return True
+
+    def taint_kinds(self, c: ast.Call, fi: FuncInfo, skip_first: bool, local: tuple = (), base: dict[str, frozenset[str]] | None = None) -> dict[str, frozenset[str]] | None:
+        """argument kinds for a resolved callee: `base` (static kinds) with the callee's parameters that receive an
+        unchecked caller value marked UNTYPED"""
+        if not self.taint:
+            return base
+        params = [a.arg for a in fi.node.args.posonlyargs + fi.node.args.args]
+        if skip_first and params and params[0] in ("self", "cls"):
+            params = params[1:]
+        out = dict(base or {})
+        for p_, a in zip(params, c.args):
+            if isinstance(a, ast.Starred):
+                break
+            if self.untyped(a, local):
+                out[p_] = frozenset([UNTYPED])
+        for k in c.keywords:
+            if k.arg and self.untyped(k.value, local):
+                out[k.arg] = frozenset([UNTYPED])
+        return out or base
+
+    def untyped_site(self, e: ast.AST, operand: ast.AST, what: str, local: tuple, excs: tuple[str, ...] = ("TypeError",)) -> set[Esc]:
+        if not self.untyped(operand, local):
+            return set()
+        return self.site([(x, f"{what} of a caller value of unchecked type (`{ast.unparse(operand)}`)") for x in excs], e, None)
+
     def site(self, raised: list[tuple[str, str]], node: ast.AST, discharged: str | None) -> set[Esc]:
         self.mr.sites_total += len(raised) or 1
         if discharged is not None:
@@ -345,7 +409,7 @@ class _FuncAnalysis:
         if isinstance(st, ast.While):
             return self.expr(st.test) | self.block(st.body, reraise) | self.block(st.orelse, reraise)
         if isinstance(st, (ast.For, ast.AsyncFor)):
-            return self.expr(st.iter) | self.block(st.body, reraise) | self.block(st.orelse, reraise)
+            return self.expr(st.iter) | self.untyped_site(st.iter, st.iter, "iteration", ()) | self.block(st.body, reraise) | self.block(st.orelse, reraise)
         if isinstance(st, (ast.With, ast.AsyncWith)):
             out: set[Esc] = set()
             suppress: list[str] = []
@@ -375,7 +439,7 @@ class _FuncAnalysis:
                 return out | set(reraise)
             target = e.func if isinstance(e, ast.Call) else e
             name = ast.unparse(target).split(".")[-1]
-            if name == "TypeError" and self.mr.types is not None and not self.typ(e):
+            if name == "TypeError" and self.mr.types is not None and not self.typ(e) and not self.taint:
                 # mypy proves the statement unreachable for well-typed callers (defensive runtime type check)
                 return self.site([("TypeError", "defensive type check")], st, "unreachable for well-typed callers (mypy narrowing)")
             if isinstance(e, ast.Call):
@@ -403,6 +467,8 @@ class _FuncAnalysis:
             return out
         if isinstance(st, ast.Assign):
             out = self.expr(st.value)
+            if any(isinstance(t, (ast.Tuple, ast.List)) for t in st.targets):
+                out |= self.untyped_site(st, st.value, "unpacking", ())
             for t in st.targets:
                 out |= self.target(t, st.value, st)
             return out
@@ -412,7 +478,7 @@ class _FuncAnalysis:
             out = self.expr(st.value)
             if isinstance(st.target, ast.Subscript):
                 out |= self.expr(st.target.value) | self.subscript_site(st.target, st)
-            out |= self.binop_site(st.op, st.target, st.value, st)
+            out |= self.binop_site(st.op, st.target, st.value, st) | self.untyped_site(st, st.value, "arithmetic", ()) | self.untyped_site(st, st.target, "arithmetic", ())
             return out
         if isinstance(st, ast.Expr):
             return self.expr(st.value)
@@ -432,7 +498,7 @@ class _FuncAnalysis:
             return True if any(r is True for r in rs) else (False if all(r is False for r in rs) else None)
         if isinstance(t, ast.Call) and isinstance(t.func, ast.Name) and t.func.id == "isinstance" and len(t.args) == 2 and isinstance(t.args[0], ast.Name):
             ks = self.argkinds.get(t.args[0].id)
-            if not ks or "Any" in ks or "other" in ks:
+            if not ks or "Any" in ks or "other" in ks or UNTYPED in ks:
                 return None
             def flat(x: ast.AST) -> list[str]:
                 if isinstance(x, ast.Tuple):
@@ -554,17 +620,22 @@ class _FuncAnalysis:
         if isinstance(e, ast.Call):
             return self.call(e, local)
         if isinstance(e, ast.Subscript):
-            return self.expr(e.value, local) | self.expr(e.slice, local) | self.subscript_site(e, e, local)
+            if self.untyped(e.value, local):
+                # an object of another type refuses the subscript (TypeError); what the declared type may raise still applies
+                return self.expr(e.value, local) | self.expr(e.slice, local) | self.subscript_site(e, e, local) | self.untyped_site(e, e.value, "subscript", local)
+            return self.expr(e.value, local) | self.expr(e.slice, local) | self.subscript_site(e, e, local) | (self.untyped_site(e, e.slice, "key / index", local) if not isinstance(e.slice, ast.Slice) else set())
         if isinstance(e, ast.Slice):
             return self.expr(e.lower, local) | self.expr(e.upper, local) | self.expr(e.step, local)
         if isinstance(e, ast.Attribute):
             out = self.expr(e.value, local)
+            if self.untyped(e.value, local):
+                return out | self.untyped_site(e, e.value, "attribute access", local, ("AttributeError",))
             out |= self.property_site(e)
             return out
         if isinstance(e, ast.BinOp):
-            return self.expr(e.left, local) | self.expr(e.right, local) | self.binop_site(e.op, e.left, e.right, e, local)
+            return self.expr(e.left, local) | self.expr(e.right, local) | self.binop_site(e.op, e.left, e.right, e, local) | self.untyped_site(e, e.left, "arithmetic", local) | self.untyped_site(e, e.right, "arithmetic", local)
         if isinstance(e, ast.UnaryOp):
-            return self.expr(e.operand, local)
+            return self.expr(e.operand, local) | (self.untyped_site(e, e.operand, "unary operator", local) if not isinstance(e.op, ast.Not) else set())
         if isinstance(e, ast.BoolOp):
             out: set[Esc] = set()
             loc = local
@@ -583,6 +654,16 @@ class _FuncAnalysis:
             out = self.expr(e.left, local)
             for c in e.comparators:
                 out |= self.expr(c, local)
+            if self.taint:
+                lhs = e.left
+                for op, rhs in zip(e.ops, e.comparators):
+                    if isinstance(op, (ast.Lt, ast.LtE, ast.Gt, ast.GtE)):
+                        out |= self.untyped_site(e, lhs, "ordering comparison", local) | self.untyped_site(e, rhs, "ordering comparison", local)
+                    elif isinstance(op, (ast.In, ast.NotIn)):
+                        out |= self.untyped_site(e, rhs, "membership test in", local)
+                        if not isinstance(rhs, (ast.Tuple, ast.List)) and not (kinds(self.typ(rhs)) and kinds(self.typ(rhs)) <= {"list", "tuple", "str", "bytes"}):
+                            out |= self.untyped_site(e, lhs, "hashing (membership in a set / mapping)", local)
+                    lhs = rhs
             return out
         if isinstance(e, (ast.Tuple, ast.List, ast.Set)):
             out = set()
@@ -595,22 +676,22 @@ class _FuncAnalysis:
                 out |= self.expr(k, local) | self.expr(v, local)
             return out
         if isinstance(e, ast.Starred):
-            return self.expr(e.value, local)
+            return self.expr(e.value, local) | self.untyped_site(e, e.value, "unpacking", local)
         if isinstance(e, ast.NamedExpr):
             return self.expr(e.value, local)
         if isinstance(e, ast.JoinedStr):
             out = set()
             for v in e.values:
                 if isinstance(v, ast.FormattedValue):
-                    out |= self.expr(v.value, local)
+                    out |= self.expr(v, local)
             return out
         if isinstance(e, ast.FormattedValue):
-            return self.expr(e.value, local)
+            return self.expr(e.value, local) | (self.untyped_site(e, e.value, "format specification", local, ("TypeError", "ValueError")) if e.format_spec is not None else set())
         if isinstance(e, (ast.ListComp, ast.SetComp, ast.GeneratorExp, ast.DictComp)):
             out = set()
             loc = local
             for g in e.generators:
-                out |= self.expr(g.iter, loc)
+                out |= self.expr(g.iter, loc) | self.untyped_site(e, g.iter, "iteration", loc)
                 for i in g.ifs:
                     out |= self.expr(i, loc)
                     loc = loc + tuple(_atoms(i, True))
@@ -810,6 +891,15 @@ class _FuncAnalysis:
             if part.startswith("type["):
                 part = part[5:]
             part = part.split("[")[0].rstrip("?")
+            if part and "." not in part:
+                # a type variable of this module: its bound
+                tv = self.mod.assigns.get(part)
+                if isinstance(tv, ast.Call) and call_name(tv) in ("TypeVar", "typing.TypeVar"):
+                    bnd = next((k.value for k in tv.keywords if k.arg == "bound"), None)
+                    tgt = self.repo.resolve_expr(self.mod, bnd) if bnd is not None and not isinstance(bnd, ast.Constant) else (self.repo.resolve(self.mod.name, bnd.value) if isinstance(bnd, ast.Constant) and isinstance(bnd.value, str) else None)
+                    if isinstance(tgt, ClassInfo):
+                        out.append(tgt)
+                continue
             if part.startswith("xknx."):
                 modname, _, cname = part.rpartition(".")
                 m = self.repo.modules.get(modname)
@@ -856,6 +946,12 @@ class _FuncAnalysis:
             out |= self.expr(k.value, local)
         f = c.func
         name = call_name(c)
+        if self.taint:
+            if isinstance(f, ast.Attribute) and self.untyped(f.value, local):
+                # an object of another type has no method of that name (look-alikes with another signature are not modelled)
+                return out | self.untyped_site(c, f.value, "method call", local, ("AttributeError",))
+            if isinstance(f, ast.Name) and self.untyped(f, local):
+                return out | self.untyped_site(c, f, "call", local)
         # 1. callbacks supplied by the property
         if self.mr.callback_targets is not None:
             tg = self.mr.callback_targets(self.fi, c)
@@ -867,7 +963,7 @@ class _FuncAnalysis:
         if isinstance(f, ast.Name):
             tgt = self.repo.resolve(self.mod.name, f.id)
             if isinstance(tgt, FuncInfo):
-                return out | set(self.mr.escapes(tgt, None, self.bind_kinds(c, tgt, False)))
+                return out | set(self.mr.escapes(tgt, None, self.taint_kinds(c, tgt, False, local, self.bind_kinds(c, tgt, False))))
             if isinstance(tgt, ClassInfo):
                 return out | self.construct(tgt, c, local)
             if f.id == "cls" and self.ctx is not None:
@@ -882,16 +978,17 @@ class _FuncAnalysis:
                 if self.fi.cls in mro:
                     for b in mro[mro.index(self.fi.cls) + 1:]:
                         if f.attr in b.methods:
-                            return out | set(self.mr.escapes(b.methods[f.attr], self.ctx))
+                            return out | set(self.mr.escapes(b.methods[f.attr], self.ctx, self.taint_kinds(c, b.methods[f.attr], True, local)))
                 return out
             # self.m() / cls.m()
             if isinstance(base, ast.Name) and base.id in ("self", "cls") and self.ctx is not None:
                 m = self.repo.lookup_method(self.ctx, f.attr)
                 if m is not None:
-                    res = set(self.mr.escapes(m, self.ctx))
+                    res = set(self.mr.escapes(m, self.ctx, self.taint_kinds(c, m, True, local)))
                     for sub in self.repo.subclasses(self.ctx, strict=True):
-                        if f.attr in sub.methods:
-                            res |= set(self.mr.escapes(sub.methods[f.attr], sub))
+                        ms = self.override_in(sub, f.attr, self.ctx)
+                        if ms is not None:
+                            res |= set(self.mr.escapes(ms, sub, self.taint_kinds(c, ms, True, local)))
                     return out | res
                 # class attribute holding a class (e.g. `data_type = HVACMode`): constructor call
                 ci = self.class_valued_attr(f.attr)
@@ -905,25 +1002,25 @@ class _FuncAnalysis:
                 if ci is not None:
                     m = self.repo.lookup_method(ci, f.attr)
                     if m is not None:
-                        return out | set(self.mr.escapes(m, ci, self.bind_kinds(c, m, True)))
+                        return out | set(self.mr.escapes(m, ci, self.taint_kinds(c, m, True, local, self.bind_kinds(c, m, True))))
             # Class.m() / module.func()
             tgt = self.repo.resolve_expr(self.mod, base)
             if isinstance(tgt, ClassInfo):
                 m = self.repo.lookup_method(tgt, f.attr)
                 if m is not None:
-                    return out | set(self.mr.escapes(m, tgt, self.bind_kinds(c, m, True)))
+                    return out | set(self.mr.escapes(m, tgt, self.taint_kinds(c, m, True, local, self.bind_kinds(c, m, True))))
                 nested = tgt.module.classes.get(f"{tgt.name}.{f.attr}")
                 if nested is not None:
                     return out | self.construct(nested, c, local)
             if isinstance(tgt, Module):
                 t2 = self.repo.resolve(tgt.name, f.attr)
                 if isinstance(t2, FuncInfo):
-                    return out | set(self.mr.escapes(t2, None))
+                    return out | set(self.mr.escapes(t2, None, self.taint_kinds(c, t2, False, local)))
                 if isinstance(t2, ClassInfo):
                     return out | self.construct(t2, c, local)
             full = self.repo.resolve_expr(self.mod, f)
             if isinstance(full, FuncInfo):
-                return out | set(self.mr.escapes(full, full.cls))
+                return out | set(self.mr.escapes(full, full.cls, self.taint_kinds(c, full, full.cls is not None, local)))
             if isinstance(full, ClassInfo):
                 return out | self.construct(full, c, local)
             # receiver by static type
@@ -937,15 +1034,28 @@ class _FuncAnalysis:
                     m = self.repo.lookup_method(ci, f.attr)
                     if m is not None:
                         found = True
-                        res |= set(self.mr.escapes(m, ci))
+                        res |= set(self.mr.escapes(m, ci, self.taint_kinds(c, m, True, local)))
                     for sub in self.repo.subclasses(ci, strict=True):
-                        if f.attr in sub.methods:
+                        ms = self.override_in(sub, f.attr, ci)
+                        if ms is not None:
                             found = True
-                            res |= set(self.mr.escapes(sub.methods[f.attr], sub))
+                            res |= set(self.mr.escapes(ms, sub, self.taint_kinds(c, ms, True, local)))
                 if found:
                     return out | res
             return out | self.external_call(name, f.attr, bt, c, local)
         return out | self.unresolved(c, name)
+
+    def override_in(self, sub: ClassInfo, attr: str, base: ClassInfo) -> FuncInfo | None:
+        """the method `attr` resolves to on `sub` when that is not what `base` (or a class between them, visited on
+        its own) provides: defined by `sub` itself, or inherited from a mix-in outside `base`'s hierarchy"""
+        if attr in sub.methods:
+            return sub.methods[attr]
+        m = self.repo.lookup_method(sub, attr)
+        if m is None or m.cls is None or m.cls is base:
+            return None
+        if self.repo.is_subclass(m.cls, base) or self.repo.is_subclass(base, m.cls):
+            return None
+        return m
 
     def class_valued_attr(self, attr: str) -> ClassInfo | None:
         if self.ctx is None:
@@ -970,7 +1080,7 @@ class _FuncAnalysis:
         for mname in ("__new__", "__init__", "__post_init__"):
             m = self.repo.lookup_method(ci, mname)
             if m is not None:
-                out |= set(self.mr.escapes(m, ci, self.bind_kinds(c, m, True) if mname == "__init__" else None))
+                out |= set(self.mr.escapes(m, ci, self.taint_kinds(c, m, True, local, self.bind_kinds(c, m, True)) if mname == "__init__" else None))
         return out
 
     def enum_site(self, ci: ClassInfo, c: ast.Call, local: tuple) -> set[Esc]:
@@ -1159,6 +1269,11 @@ class _FuncAnalysis:
     def builtin_call(self, name: str, c: ast.Call, local: tuple) -> set[Esc]:
         if name == "str" and (len(c.args) >= 2 or any(k.arg in ("encoding", "errors") for k in c.keywords)):
             return self.decode_site(c, c.args[1:], local)  # str(bytes, encoding[, errors]) decodes
+        if self.taint and name not in _ANY_OK_BUILTINS:
+            ua = [a for a in c.args if self.untyped(a, local)]
+            if ua:
+                excs = ("TypeError", "ValueError", "OverflowError") if name in ("int", "float", "round", "bytes", "bytearray", "chr") else ("TypeError",)
+                return self.site([(x, f"{name}() of a caller value of unchecked type (`{ast.unparse(ua[0])}`)") for x in excs], c, None)
         if name in NO_RAISE_BUILTINS:
             return set()
         if name == "int":
@@ -1358,7 +1473,16 @@ class _FuncAnalysis:
                 return f"group {k!r} of the dominating successful match of {pat!r} is digits only"
         return None
 
+    _ANY_OK_METHODS = {"debug", "info", "warning", "error", "exception", "critical", "log", "append", "add", "put_nowait", "set_result", "format", "insert", "setdefault"}
+
     def external_call(self, name: str, attr: str, recv_type: str, c: ast.Call, local: tuple) -> set[Esc]:
+        if self.taint and attr not in self._ANY_OK_METHODS and name != "struct.pack":
+            ua = [a for a in c.args if self.untyped(a, local)]
+            if ua:
+                return self._external_call(name, attr, recv_type, c, local) | self.site([("TypeError", f"{name}() with a caller value of unchecked type (`{ast.unparse(ua[0])}`)")], c, None)
+        return self._external_call(name, attr, recv_type, c, local)
+
+    def _external_call(self, name: str, attr: str, recv_type: str, c: ast.Call, local: tuple) -> set[Esc]:
         if name in EXTERNAL:
             excs = EXTERNAL[name]
             if not excs:
